@@ -105,6 +105,12 @@ struct Input {
     jitter: u64,
     /// drop the response receiver at this virtual ms while the manager keeps running
     close_rx_at: Option<u64>,
+    /// account-stream schedule (forces ExecutionManager::init): for every connection that ends,
+    /// (virtual ms at which the client's account stream ends, number of failed re-initialisations
+    /// before the next succeeds, how they fail: 0 = account_stream errs, 1 = account_snapshot errs)
+    acct: Option<Vec<(u64, u64, u64)>>,
+    /// ReconnectionBackoffPolicy (initial ms, multiplier, max ms) used with `acct`
+    backoff: (u64, u64, u64),
 }
 
 fn beh_json(b: &Beh) -> Value {
@@ -135,6 +141,8 @@ impl Input {
         json!({
             "exchanges": self.exchanges, "instr": self.instr, "mgr": self.mgr, "tau": self.tau,
             "stop": self.stop, "via_init": self.via_init, "flood": self.flood, "jitter": self.jitter, "close_rx_at": self.close_rx_at,
+            "acct": self.acct.as_ref().map(|v| v.iter().map(|(t, k, h)| json!({"end": t, "fails": k, "how": h})).collect::<Vec<_>>()),
+            "backoff": [self.backoff.0, self.backoff.1, self.backoff.2],
             "script": self.script.iter().map(|r| json!({
                 "k": if r.open { "o" } else { "c" }, "x": r.x, "i": r.i, "cid": r.cid, "at": r.at,
                 "b": beh_json(&r.b)})).collect::<Vec<_>>(),
@@ -172,6 +180,19 @@ impl Input {
             flood: v["flood"].as_u64(),
             jitter: v["jitter"].as_u64().unwrap_or(0),
             close_rx_at: v["close_rx_at"].as_u64(),
+            acct: v["acct"].as_array().map(|a| {
+                let mut sched: Vec<(u64, u64, u64)> = a
+                    .iter()
+                    .map(|e| (e["end"].as_u64().unwrap_or(0), e["fails"].as_u64().unwrap_or(0).min(6), e["how"].as_u64().unwrap_or(0) % 2))
+                    .collect();
+                sched.sort_by_key(|e| e.0);
+                sched
+            }),
+            backoff: (
+                v["backoff"][0].as_u64().unwrap_or(5).max(1),
+                v["backoff"][1].as_u64().unwrap_or(2).clamp(1, 255),
+                v["backoff"][2].as_u64().unwrap_or(40).max(1),
+            ),
         }
     }
 }
@@ -268,6 +289,20 @@ struct Scripted {
     default_beh: Beh,
     /// sub-millisecond jitter seed (0 = none), see `real`
     jitter: u64,
+    /// account-stream lifecycle script
+    acct: Arc<Mutex<AcctState>>,
+}
+
+/// State of the scripted account stream: which connection is next, how many re-initialisations
+/// of the pending reconnect have failed so far.
+struct AcctState {
+    sched: Vec<(u64, u64, u64)>,
+    start: Option<tokio::time::Instant>,
+    /// successful connections so far
+    conns: usize,
+    fails_done: u64,
+    /// the current attempt is to fail in account_snapshot (after account_stream succeeded)
+    snapshot_fails_now: bool,
 }
 
 impl Scripted {
@@ -280,11 +315,17 @@ impl Scripted {
 
 impl ExecutionClient for Scripted {
     const EXCHANGE: ExchangeId = ExchangeId::Mock;
-    type Config = (Script, ExchangeId, Beh, u64);
-    type AccountStream = futures::stream::Pending<UnindexedAccountEvent>;
+    type Config = (Script, ExchangeId, Beh, u64, Vec<(u64, u64, u64)>);
+    type AccountStream = futures::stream::BoxStream<'static, UnindexedAccountEvent>;
 
     fn new(config: Self::Config) -> Self {
-        Scripted { script: config.0, exchange: config.1, default_beh: config.2, jitter: config.3 }
+        Scripted {
+            script: config.0,
+            exchange: config.1,
+            default_beh: config.2,
+            jitter: config.3,
+            acct: Arc::new(Mutex::new(AcctState { sched: config.4, start: None, conns: 0, fails_done: 0, snapshot_fails_now: false })),
+        }
     }
 
     async fn account_snapshot(
@@ -292,6 +333,13 @@ impl ExecutionClient for Scripted {
         _: &[AssetNameExchange],
         _: &[InstrumentNameExchange],
     ) -> Result<UnindexedAccountSnapshot, UnindexedClientError> {
+        {
+            let mut st = self.acct.lock().unwrap();
+            if st.snapshot_fails_now {
+                st.snapshot_fails_now = false;
+                return Err(UnindexedClientError::AccountSnapshot("scripted".to_string()));
+            }
+        }
         Ok(UnindexedAccountSnapshot {
             exchange: self.exchange,
             balances: vec![],
@@ -304,7 +352,32 @@ impl ExecutionClient for Scripted {
         _: &[AssetNameExchange],
         _: &[InstrumentNameExchange],
     ) -> Result<Self::AccountStream, UnindexedClientError> {
-        Ok(futures::stream::pending())
+        let mut st = self.acct.lock().unwrap();
+        if st.conns > 0 {
+            // a re-initialisation after connection number `conns` ended
+            let (_, fails, how) = st.sched.get(st.conns - 1).copied().unwrap_or((0, 0, 0));
+            if st.fails_done < fails {
+                st.fails_done += 1;
+                if how == 0 {
+                    return Err(UnindexedClientError::Connectivity(ConnectivityError::ExchangeOffline(self.exchange)));
+                }
+                st.snapshot_fails_now = true;
+                return Ok(futures::stream::pending().boxed());
+            }
+        }
+        st.fails_done = 0;
+        st.conns += 1;
+        let start = *st.start.get_or_insert_with(tokio::time::Instant::now);
+        Ok(match st.sched.get(st.conns - 1) {
+            // this connection ends at the scripted time (yields nothing, then None)
+            Some((end, _, _)) => {
+                let deadline = start + Duration::from_millis(*end);
+                futures::stream::once(async move { tokio::time::sleep_until(deadline).await })
+                    .filter_map(|_| std::future::ready(None))
+                    .boxed()
+            }
+            None => futures::stream::pending().boxed(),
+        })
     }
 
     fn cancel_order(
@@ -496,6 +569,9 @@ fn build_instruments(inp: &Input) -> IndexedInstruments {
 enum Seen {
     Event(String),
     Other(u64),
+    /// account snapshot of a (re-)connection / Reconnecting notice (does it name our exchange?)
+    Snap(u64),
+    Rec(u64, bool),
 }
 
 fn make_request(r: &Req) -> ExecutionRequest {
@@ -516,12 +592,13 @@ fn make_request(r: &Req) -> ExecutionRequest {
 }
 
 /// reduce an AccountStreamEvent to the Coq observation `(OEv (mkEv ex instr cid outcome t) key_ex echo)`
-fn observe(ev: &AccountStreamEvent, t: u64) -> Option<Seen> {
-    let AccountStreamEvent::Item(AccountEvent { exchange, kind }) = ev else {
-        return Some(Seen::Other(t));
+fn observe(ev: &AccountStreamEvent, t: u64, own: ExchangeId) -> Option<Seen> {
+    let (exchange, kind) = match ev {
+        AccountStreamEvent::Item(AccountEvent { exchange, kind }) => (exchange, kind),
+        AccountStreamEvent::Reconnecting(origin) => return Some(Seen::Rec(t, *origin == own)),
     };
     match kind {
-        AccountEventKind::Snapshot(_) => None, // ExecutionManager::init's account snapshot
+        AccountEventKind::Snapshot(_) => Some(Seen::Snap(t)), // ExecutionManager::init's account snapshot
         AccountEventKind::OrderSnapshot(Snapshot(order)) => {
             let Some(c) = cid_num(&order.key.cid) else { return Some(Seen::Other(t)) };
             let out = match &order.state {
@@ -585,10 +662,36 @@ fn stamp(start: tokio::time::Instant) -> u64 {
     if us % 1000 == 0 { us / 1000 } else { u64::MAX / 2 + us }
 }
 
+/// (disconnect time, time the next connection is established) for every scripted disconnect:
+/// each failed re-initialisation is followed by a backoff sleep (initial, then x multiplier up
+/// to max; reset on success)
+fn acct_times(inp: &Input) -> Vec<(u64, u64)> {
+    let (init, mult, max) = inp.backoff;
+    inp.acct
+        .as_ref()
+        .map(|sched| {
+            sched
+                .iter()
+                .map(|(end, fails, _)| {
+                    let mut cur = init;
+                    let mut t = *end;
+                    for _ in 0..*fails {
+                        t += cur;
+                        cur = (cur * mult).min(max);
+                    }
+                    (*end, t)
+                })
+                .collect()
+        })
+        .unwrap_or_default()
+}
+
 /// Result of running one case on the implementation.
 struct Ran {
     seen: Vec<Seen>,
     end: &'static str,
+    /// the merged stream ended although the manager task was still running
+    ended_early: bool,
 }
 
 async fn drive<St>(
@@ -609,6 +712,10 @@ where
         .max()
         .unwrap_or(0)
         + 50;
+    // ... and after the last scripted account-stream re-connection
+    let horizon = horizon.max(acct_times(&inp).iter().map(|(_, t)| *t).max().unwrap_or(0) + 50);
+    let own = POOL[inp.mgr % POOL.len()];
+    let mut ended_early = false;
     let shutdown_at = inp.stop.unwrap_or(horizon);
     let script = inp.script.clone();
     let jitter = inp.jitter;
@@ -647,9 +754,12 @@ where
             ev = async { match events.as_mut() { Some(e) => e.next().await, None => std::future::pending().await } } => match ev {
                 Some(ev) => {
                     let t = stamp(start);
-                    if let Some(s) = observe(&ev, t) { seen.push(s) }
+                    if let Some(s) = observe(&ev, t, own) { seen.push(s) }
                 }
                 None => {
+                    // the stream handed out by the manager (response channel / merged account
+                    // stream) is over: legitimate only once the manager itself is gone
+                    ended_early = !handle.is_finished();
                     end = match (&mut handle).await { Ok(()) => "ObsReturned", Err(_) => "ObsPanicked" };
                     break;
                 }
@@ -662,7 +772,7 @@ where
                 if let Some(e) = events.as_mut() {
                     while let Some(Some(ev)) = futures::FutureExt::now_or_never(e.next()) {
                         let t = stamp(start);
-                        if let Some(s) = observe(&ev, t) { seen.push(s) }
+                        if let Some(s) = observe(&ev, t, own) { seen.push(s) }
                     }
                 }
                 end = match res { Ok(()) => "ObsReturned", Err(_) => "ObsPanicked" };
@@ -671,7 +781,7 @@ where
         }
     }
     sender.abort();
-    Ran { seen, end }
+    Ran { seen, end, ended_early }
 }
 
 fn run_on_runtime(inp: Input) -> Ran {
@@ -689,17 +799,21 @@ fn run_on_runtime(inp: Input) -> Ran {
         for r in &inp.script {
             table.entry((r.open, r.cid)).or_default().push_back(r.b.clone());
         }
-        let client = Arc::new(Scripted::new((Arc::new(Mutex::new(table)), exchange, Beh::Never, inp.jitter)));
+        let client = Arc::new(Scripted::new((Arc::new(Mutex::new(table)), exchange, Beh::Never, inp.jitter, inp.acct.clone().unwrap_or_default())));
         let tau = real(inp.tau, inp.jitter, 3);
         let (req_tx, req_rx) = mpsc_unbounded::<ExecutionRequest>();
         let start = tokio::time::Instant::now();
-        if inp.via_init {
+        if inp.via_init || inp.acct.is_some() {
             let (manager, stream) = ExecutionManager::init(
                 req_rx.into_stream(),
                 tau,
                 client,
                 indexer,
-                ReconnectionBackoffPolicy { backoff_ms_initial: 125, backoff_multiplier: 2, backoff_ms_max: 60000 },
+                ReconnectionBackoffPolicy {
+                    backoff_ms_initial: if inp.acct.is_some() { inp.backoff.0 } else { 125 },
+                    backoff_multiplier: if inp.acct.is_some() { inp.backoff.1 as u8 } else { 2 },
+                    backoff_ms_max: if inp.acct.is_some() { inp.backoff.2 } else { 60000 },
+                },
             )
             .await
             .expect("ExecutionManager::init");
@@ -727,10 +841,10 @@ fn run_guarded(inp: &Input) -> Ran {
     });
     match rx.recv_timeout(Duration::from_secs(15)) {
         Ok(Ok(r)) => r,
-        Ok(Err(_)) => Ran { seen: vec![], end: "ObsPanicked" },
+        Ok(Err(_)) => Ran { seen: vec![], end: "ObsPanicked", ended_early: false },
         Err(_) => {
             HANGS.fetch_add(1, std::sync::atomic::Ordering::SeqCst);
-            Ran { seen: vec![], end: "ObsHang" }
+            Ran { seen: vec![], end: "ObsHang", ended_early: false }
         }
     }
 }
@@ -853,6 +967,7 @@ fn run_flood_on_runtime(inp: Input, cap: u64) -> FloodRan {
             exchange,
             Beh::Respond { d: 0, ok: true, full: false, e: 0 },
             0,
+            vec![],
         )));
         let (req_tx, req_rx) = tokio::sync::mpsc::unbounded_channel::<ExecutionRequest>();
         let (resp_tx, resp_rx) = mpsc_unbounded::<AccountStreamEvent>();
@@ -1038,21 +1153,52 @@ fn emit(em: &mut Emitter, stream: &'static str, inp: &Input) {
     let obs: Vec<String> = ran
         .seen
         .iter()
-        .map(|s| match s {
-            Seen::Event(e) => e.clone(),
-            Seen::Other(t) => format!("(OOther {})", n(*t as u128)),
+        .filter_map(|s| match s {
+            Seen::Event(e) => Some(e.clone()),
+            Seen::Other(t) => Some(format!("(OOther {})", n(*t as u128))),
+            // account-side items are judged only in the account-stream ('Acct') cases
+            Seen::Snap(_) | Seen::Rec(..) => None,
         })
         .collect();
+    let aobs: Vec<String> = ran
+        .seen
+        .iter()
+        .filter_map(|s| match s {
+            Seen::Snap(t) => Some(format!("(ASnap {})", n(*t as u128))),
+            Seen::Rec(t, ok) => Some(format!("(ARec {} {})", n(*t as u128), b(*ok))),
+            _ => None,
+        })
+        .collect();
+    if ran.ended_early { tags.push("merged_stream_ended_under_running_manager".into()) }
+    if let Some(sched) = &inp.acct {
+        tags.push("account_stream_script".into());
+        for (_, k, h) in sched {
+            tags.push(format!("acct:disconnect_then_{}_failed_reinit_{}", k, if *k == 0 { "none" } else if *h == 0 { "stream_err" } else { "snapshot_err" }));
+        }
+    }
+    let acct_tail = match &inp.acct {
+        Some(sched) if crash_at.is_none() => format!(
+            " (mkPolicy {} {} {}) {} {} {}",
+            n(inp.backoff.0 as u128),
+            n(inp.backoff.1 as u128),
+            n(inp.backoff.2 as u128),
+            list(&sched.iter().map(|(t, k, _)| pair(&n(*t as u128), &n(*k as u128))).collect::<Vec<_>>()),
+            list(&aobs),
+            b(ran.ended_early)
+        ),
+        _ => String::new(),
+    };
     let coq = format!(
-        "({} (mkCase (mkMgr {} {} {}) {} {} {} {}))",
-        if crash_at.is_some() { "Crash" } else { "Script" },
+        "({} (mkCase (mkMgr {} {} {}) {} {} {} {}){})",
+        if crash_at.is_some() { "Crash" } else if inp.acct.is_some() { "Acct" } else { "Script" },
         n(ex_index as u128),
         list(&own),
         n(inp.tau as u128),
         opt(coq_stop.map(|s| n(s as u128))),
         list(&inp.script.iter().map(coq_req).collect::<Vec<_>>()),
         list(&obs),
-        ran.end
+        ran.end,
+        acct_tail
     );
     em.emit(Case {
         stream,
@@ -1087,7 +1233,7 @@ fn gen_world(r: &mut Rng) -> World {
 
 fn world_of(exchanges: Vec<usize>, instr: Vec<usize>, mgr: usize) -> World {
     let n_ex = exchanges.len();
-    let probe = Input { exchanges: exchanges.clone(), instr: instr.clone(), mgr, tau: 1, stop: None, via_init: false, script: vec![], flood: None, jitter: 0, close_rx_at: None };
+    let probe = Input { exchanges: exchanges.clone(), instr: instr.clone(), mgr, tau: 1, stop: None, via_init: false, script: vec![], flood: None, jitter: 0, close_rx_at: None, acct: None, backoff: (5, 2, 40) };
     let instruments = build_instruments(&probe);
     let ex = POOL[mgr];
     let ex_index = instruments.exchanges().iter().find(|e| e.value == ex).unwrap().key.0;
@@ -1183,7 +1329,7 @@ fn gen_random(r: &mut Rng, max_req: u64) -> Input {
     let burst = r.chance(1, 3);
     let script = gen_script(r, &w, tau, n_req, false, 0, false, burst);
     let jitter = if r.chance(1, 3) { 1 + r.below(1_000_000) } else { 0 };
-    Input { exchanges: w.exchanges, instr: w.instr, mgr: w.mgr, tau, stop: None, via_init: r.chance(1, 4), script, flood: None, jitter, close_rx_at: None }
+    Input { exchanges: w.exchanges, instr: w.instr, mgr: w.mgr, tau, stop: None, via_init: r.chance(1, 4), script, flood: None, jitter, close_rx_at: None, acct: None, backoff: (5, 2, 40) }
 }
 
 fn gen_adversarial(r: &mut Rng, max_req: u64) -> Input {
@@ -1266,7 +1412,7 @@ fn gen_adversarial(r: &mut Rng, max_req: u64) -> Input {
         }
     }
     let jitter = if style == 8 || r.chance(1, 5) { 1 + r.below(1_000_000) } else { 0 };
-    Input { exchanges: w.exchanges, instr: w.instr, mgr: w.mgr, tau, stop, via_init: r.chance(1, 4), script, flood: None, jitter, close_rx_at }
+    Input { exchanges: w.exchanges, instr: w.instr, mgr: w.mgr, tau, stop, via_init: r.chance(1, 4), script, flood: None, jitter, close_rx_at, acct: None, backoff: (5, 2, 40) }
 }
 
 /// the manager serves the middle exchange (by index) of three
@@ -1316,6 +1462,71 @@ fn gen_retries(r: &mut Rng, w: &World, tau: u64, n_req: u64) -> Vec<Req> {
     script
 }
 
+/// L4 / seed c07-7: the account stream behind ExecutionManager::init ends and is re-initialised
+/// (failing 0..=2 times first) while requests are in flight
+fn gen_acct(r: &mut Rng, max_req: u64) -> Input {
+    let w = if r.chance(1, 2) { gen_world_middle(r) } else { gen_world(r) };
+    let tau = gen_tau(r).max(1);
+    let n_req = 2 + r.below(max_req);
+    let (dup, burst) = (r.chance(1, 3), r.chance(1, 3));
+    let script = gen_script(r, &w, tau, n_req, false, 0, dup, burst);
+    let backoff = *r.pick(&[(1u64, 2u64, 4u64), (5, 2, 40), (3, 3, 10), (tau.max(1), 2, 4 * tau.max(1)), (2 * tau + 1, 1, 2 * tau + 1)]);
+    let last = script.iter().map(|q| ctime(tau, q)).max().unwrap_or(0);
+    let mut sched: Vec<(u64, u64, u64)> = vec![];
+    let mut t = 0u64;
+    for _ in 0..(1 + r.below(3)) {
+        // somewhere inside the life of the script, mostly while something is outstanding
+        t += 1 + match r.below(3) {
+            0 => r.below(last / 2 + 2),
+            1 => {
+                let q: &Req = r.pick(&script);
+                (q.at + r.below(tau + 1)).saturating_sub(t)
+            }
+            _ => r.below(tau + 2),
+        };
+        let fails = *r.pick(&[0u64, 1, 1, 2, 2, 3]);
+        sched.push((t, fails, r.below(2)));
+        // the next connection exists from here on
+        let mut probe = Input { exchanges: vec![], instr: vec![], mgr: 0, tau, stop: None, via_init: true, script: vec![], flood: None, jitter: 0, close_rx_at: None, acct: Some(vec![(t, fails, 0)]), backoff };
+        t = acct_times(&probe)[0].1;
+        probe.acct = None;
+    }
+    let jitter = if r.chance(1, 4) { 1 + r.below(1_000_000) } else { 0 };
+    Input { exchanges: w.exchanges, instr: w.instr, mgr: w.mgr, tau, stop: None, via_init: true, script, flood: None, jitter, close_rx_at: None, acct: Some(sched), backoff }
+}
+
+/// small exhaustive table for the account-stream dimension: failed re-initialisations 0..=2 x how
+/// they fail x one or two disconnects, with requests answered / timing out before, across,
+/// during the backoff and after the re-connection
+fn acct_table(em: &mut Emitter) {
+    let tau = 20u64;
+    let resp = |d: u64| Beh::Respond { d, ok: true, full: false, e: 0 };
+    for fails in 0..=2u64 {
+        for how in 0..2u64 {
+            for second in [None, Some(0u64), Some(2)] {
+                let script = vec![
+                    Req { open: true, x: 1, i: 3, cid: 1, at: 10, b: resp(5) },   // resolved before the disconnect
+                    Req { open: false, x: 1, i: 2, cid: 2, at: 25, b: resp(15) }, // answered across it
+                    Req { open: true, x: 1, i: 3, cid: 3, at: 28, b: Beh::Never }, // times out across it
+                    Req { open: true, x: 1, i: 2, cid: 4, at: 32, b: resp(3) },   // sent during the backoff
+                    Req { open: false, x: 1, i: 3, cid: 5, at: 33, b: resp(25) }, // late answer -> timeout
+                    Req { open: false, x: 1, i: 3, cid: 6, at: 80, b: resp(2) },  // after the re-connection
+                    Req { open: true, x: 1, i: 2, cid: 7, at: 118, b: Beh::Never },
+                ];
+                let mut sched = vec![(30u64, fails, how)];
+                if let Some(k2) = second {
+                    sched.push((120, k2, 1 - how));
+                }
+                let inp = Input {
+                    exchanges: vec![0, 1, 2], instr: vec![2, 2, 2], mgr: 0, tau, stop: None, via_init: true,
+                    script, flood: None, jitter: 0, close_rx_at: None, acct: Some(sched), backoff: (5, 2, 40),
+                };
+                emit(em, "table", &inp);
+            }
+        }
+    }
+}
+
 /// Exhaustive table over the abstract domain one request's fate depends on:
 /// kind x behaviour class x (delay vs timeout: 0, tau-1, tau+1, far beyond) — alone, and with a
 /// second outstanding request of each kind resolving before / at the same instant / after it.
@@ -1333,7 +1544,7 @@ fn table(em: &mut Emitter) {
         behs.push(Beh::BadKey { d, v: 0 });
         behs.push(Beh::BadKey { d, v: 1 });
     }
-    let base = |script: Vec<Req>| Input { exchanges: vec![0, 1, 2], instr: vec![2, 2, 2], mgr: 0, tau, stop: None, via_init: false, script, flood: None, jitter: 0, close_rx_at: None };
+    let base = |script: Vec<Req>| Input { exchanges: vec![0, 1, 2], instr: vec![2, 2, 2], mgr: 0, tau, stop: None, via_init: false, script, flood: None, jitter: 0, close_rx_at: None, acct: None, backoff: (5, 2, 40) };
     // Kraken is pool 0; index order: BinanceSpot(0), Kraken(1), Okx(2): the manager serves the middle
     // exchange; Kraken's instruments are 2 and 3 (a future and an option)
     for open in [true, false] {
@@ -1370,6 +1581,11 @@ fn main() {
             let mut r = Rng::new(args.seed);
             let (n_rand, n_adv, max_req) = if args.tier == "thorough" { (5000, 4000, 60) } else { (500, 500, 24) };
             table(&mut em);
+            acct_table(&mut em);
+            for _ in 0..(if args.tier == "thorough" { 800 } else { 80 }) {
+                let inp = gen_acct(&mut r, max_req / 2 + 2);
+                emit(&mut em, "adversarial", &inp);
+            }
             for k in 0..(if args.tier == "thorough" { 40 } else { 12 }) {
                 let w = gen_world(&mut r);
                 let inp = Input {
@@ -1383,6 +1599,8 @@ fn main() {
                     flood: Some(*r.pick(&[200u64, 800, 4000])),
                     jitter: 0,
                     close_rx_at: None,
+                    acct: None,
+                    backoff: (5, 2, 40),
                 };
                 let _ = k;
                 emit(&mut em, "adversarial", &inp);
